@@ -1,6 +1,7 @@
 package props
 
 import (
+	"bytes"
 	"encoding/hex"
 	"fmt"
 	"mc/report"
@@ -82,4 +83,23 @@ func recoverErr(f func()) (err error) {
 	}()
 	f()
 	return nil
+}
+
+// held remembers the octets an operation returned (the slice itself and a private copy) and, when the next
+// operation has run, checks that they are still what was returned: a result that aliases a recycled or shared
+// buffer changes under the caller's feet only after a LATER call. One instance per single-threaded shard process.
+type held struct {
+	out, snap []byte
+	desc      string
+}
+
+func (h *held) next(r *report.Report, key string, out []byte, desc string) {
+	if h.out != nil && !bytes.Equal(h.out, h.snap) {
+		r.Violate(key, h.desc+" ; then "+desc, fmt.Sprintf("the octets returned by the earlier call were %x, after the later call the same slice holds %x", h.snap, h.out), nil)
+	}
+	if len(out) == 0 {
+		h.out = nil
+		return
+	}
+	h.out, h.snap, h.desc = out, append([]byte{}, out...), desc
 }
